@@ -1,6 +1,7 @@
 (* Evaluation of the C13 model (instance Z mod bn256.Order) on harness-written cases. *)
 From Coq Require Import List ZArith Bool.
-From V.C13 Require Import Model Threshold.
+From V.C14 Require Import Model.
+From V.C13 Require Import Model Threshold CurveInst.
 Import ListNotations.
 Local Open Scope Z_scope.
 
@@ -35,7 +36,19 @@ Inductive case :=
   (* group_node_info.go: member with id x, dealers (id, coefficients); [arrivals]: the dealer index of
      every handleSharePiece call (pieces produced by the dealers' own genSharePiece); observed return
      codes; whether the member completed and its signing key *)
-| CNode (x : Z) (ds : list (Z * list Z)) (arrivals : list nat) (rcs : list Z) (done : bool) (sk : Z).
+| CNode (x : Z) (ds : list (Z * list Z)) (arrivals : list nat) (rcs : list Z) (done : bool) (sk : Z)
+  (* ---- on the executable curve model (C14): points are affine (x, y) as G1.Marshal prints them ----
+     Sign(k, msg) = s where h = HashToPoint(msg): the code's double-and-add on h *)
+| CCSign (k : Z) (h s : Z * Z)
+  (* term i of recoverSignature: (delta_i computed by the model from the ids) * sig_i = t *)
+| CCTerm (xs : list Z) (i : nat) (sg t : Z * Z)
+  (* first term assigned, the others added: the terms combine to what RecoverGroupSignature returned *)
+| CCCombine (terms : list (Z * Z)) (out : Z * Z)
+  (* the whole loop in one evaluation (thorough tier): ids, share signatures, result *)
+| CCFull (xs : list Z) (sigs : list (Z * Z)) (out : Z * Z).
+
+Definition pt (p : Z * Z) : g1 := G1Aff (fst p) (snd p).
+Definition pt_ok (p : Z * Z) : bool := on_curve (fst p) (snd p).
 
 Fixpoint natlist_eqb (a b : list nat) : bool :=
   match a, b with
@@ -79,6 +92,10 @@ Definition check (c : case) : bool :=
       && (group_secret (zq r) dealers mod r =? gsk)
       && forallb (fun sel => recover_sel (zq r) sel ids keys mod r =? gsk) sels
   | CK pairs => forallb (fun p => (group_k (fst p) =? snd p) && (group_k_float (fst p) =? snd p)) pairs
+  | CCSign k h sg => pt_ok h && g1_eqb (g1_scalar_mult k (pt h)) (pt sg)
+  | CCTerm xs i sg t => pt_ok sg && g1_eqb (g1_scalar_mult (delta (zq r) xs i) (pt sg)) (pt t)
+  | CCCombine terms out => g1_eqb (combine (map pt terms)) (pt out)
+  | CCFull xs sigs out => g1_eqb (recover_sig (zq r) cgo xs (map pt sigs)) (pt out)
   | CPerm n k js out => natlist_eqb (random_perm n k js) out
   | CNode x ds arrivals rcs done sk =>
       let n := length ds in
